@@ -304,6 +304,9 @@ def _shed_active_loads(
             bounds=p_bounds,
             options={
                 "disp": True,
+                # The presolve step can declare a feasible problem
+                # with very small bounds infeasible
+                "presolve": False,
             },
         )
         print(p_res)
@@ -410,6 +413,9 @@ def _shed_reactive_loads(
             bounds=q_bounds,
             options={
                 "disp": True,
+                # The presolve step can declare a feasible problem
+                # with very small bounds infeasible
+                "presolve": False,
             },
         )
         print(q_res)
